@@ -182,6 +182,7 @@ func (c *Ctx) Case(name string, fn func()) bool {
 		return false
 	}
 	c.cur, c.curName = n, name
+	CurrentCase.Store(name)
 	c.emit(map[string]interface{}{"t": "B", "n": n, "name": name})
 	c.out.Flush()
 	Tick()
